@@ -71,7 +71,7 @@ def _fault_op(rng, sids):
     if r < 0.16:
         return [("lat", rng.choice([0, 1, 2, 16, 17]))]
     if r < 0.26:
-        return [("peer", rng.choice(["eof", "reset"]))]
+        return [("peer", rng.choice(["eof", "reset", "reset", "timeout", "unreach"]))]
     if r < 0.36:
         return [("peer", rng.choice(["garbage", "badcrc", "trunc"]))]
     if r < 0.42:
